@@ -224,6 +224,110 @@ func propC09(a *Analysis, r *Registry) {
 			})
 		}
 	}
+	// weighted Bounds on sorted data: both scans cover every index and pair weight and value at the same index
+	if fn := b.Fn("C-scan coverage", "stats.(Sample).Bounds"); fn != nil {
+		b.guard("C-scan coverage", "stats.(Sample).Bounds/sorted-weighted", func() {
+			env := X.EnvFor(fn, "s")
+			fc := X.Under(fn, X.AssumeEq(env.MustParse("s.Sorted"), S.True()), X.AssumeCond(env.MustParse("s.Weights==nil"), false),
+				X.AssumeCond(env.MustParse("len(s.Xs)==0"), false))
+			loops := fc.Ctx.Loops()
+			if len(loops) != 2 {
+				r.Fail("C-scan coverage", "stats.(Sample).Bounds/sorted-weighted", b.pos(fn), "expected a forward and a backward scan over the weights")
+				return
+			}
+			dirs := map[string]bool{}
+			for li, l := range loops {
+				construct := "stats.(Sample).Bounds/sorted-weighted/scan#" + itoa(li+1)
+				// the weight tested and the value taken
+				var wIdx, xIdx *RF
+				for bi := range l.Body {
+					for _, in := range fn.Blocks[bi].Instrs {
+						if ifi, ok := in.(*ssa.If); ok {
+							if c := fc.Val(ifi.Cond).SingleAtom(); c != nil && c.Name == "cmp!=" {
+								for _, sd := range c.Args {
+									if at := sd.SingleAtom(); at != nil && at.Name == "idx" && at.Args[0].Equal(env.MustParse("s.Weights")) {
+										wIdx = at.Args[1]
+									}
+								}
+							}
+						}
+					}
+				}
+				// value: taken on the true edge of that test (the break path leaves the loop)
+				for bi := range l.Body {
+					blk := fn.Blocks[bi]
+					ifi, ok := blk.Instrs[len(blk.Instrs)-1].(*ssa.If)
+					if !ok {
+						continue
+					}
+					if c := fc.Val(ifi.Cond).SingleAtom(); c == nil || c.Name != "cmp!=" {
+						continue
+					}
+					for _, in := range blk.Succs[0].Instrs {
+						if u, ok := in.(*ssa.UnOp); ok {
+							if at := fc.Val(u).SingleAtom(); at != nil && at.Name == "idx" && at.Args[0].Equal(env.MustParse("s.Xs")) {
+								xIdx = at.Args[1]
+							}
+						}
+					}
+				}
+				if wIdx == nil || xIdx == nil {
+					r.Fail("C-scan coverage", construct, b.pos(fn), "scan does not test a weight and take the value")
+					continue
+				}
+				if !wIdx.Equal(xIdx) {
+					r.Fail("C-scan coverage", construct, b.pos(fn), "weight tested at index "+clip(wIdx.String(), 80)+" but value taken at "+clip(xIdx.String(), 80))
+					continue
+				}
+				// the loop counter and its range
+				phs := fc.loopPhis(wIdx)
+				if len(phs) != 1 {
+					r.Fail("C-scan coverage", construct, b.pos(fn), "scan index is not a function of one loop counter")
+					continue
+				}
+				k := phs[0]
+				ki, kn := fc.Recurrence(k)
+				hdr := X.phiOf[k.SingleAtom().ID].Block()
+				ifi, ok := hdr.Instrs[len(hdr.Instrs)-1].(*ssa.If)
+				if !ok {
+					r.Fail("C-scan coverage", construct, b.pos(fn), "scan loop has no bound test")
+					continue
+				}
+				cond := fc.Val(ifi.Cond)
+				e := X.EnvFor(fn, "s")
+				e.Set("k", k, nil)
+				n := "len(s.Weights)"
+				var first, last *RF // counter values of the first and last iteration, as substitutions for k
+				switch {
+				case ki.Equal(e.MustParse("-1")) && kn.Equal(e.MustParse("k+1")) && cond.Equal(e.MustParse("k+1<"+n)):
+					first, last = e.MustParse("-1"), e.MustParse(n+"-2") // index uses k+1
+				case ki.Equal(e.MustParse("0")) && kn.Equal(e.MustParse("k+1")) && cond.Equal(e.MustParse("k<"+n)):
+					first, last = e.MustParse("0"), e.MustParse(n+"-1")
+				case ki.Equal(e.MustParse(n+"-1")) && kn.Equal(e.MustParse("k-1")) && cond.Equal(e.MustParse("0<=k")):
+					first, last = e.MustParse(n+"-1"), e.MustParse("0")
+				default:
+					r.Fail("C-scan coverage", construct, a.W.InstrPos(ifi), "scan counter does not run over all of 0..len(Weights)-1: init "+clip(ki.String(), 60)+", step "+clip(kn.String(), 60)+", while "+clip(cond.String(), 100))
+					continue
+				}
+				at0 := wIdx.Subst(map[AtomID]*RF{k.SingleAtom().ID: first})
+				at1 := wIdx.Subst(map[AtomID]*RF{k.SingleAtom().ID: last})
+				lo, hi := e.MustParse("0"), e.MustParse(n+"-1")
+				switch {
+				case at0.Equal(lo) && at1.Equal(hi):
+					dirs["forward"] = true
+					r.OK("C-scan coverage", construct, a.W.InstrPos(ifi), "forward scan visits indices 0..len-1, weight and value at the same index")
+				case at0.Equal(hi) && at1.Equal(lo):
+					dirs["backward"] = true
+					r.OK("C-scan coverage", construct, a.W.InstrPos(ifi), "backward scan visits indices len-1..0, weight and value at the same index")
+				default:
+					r.Fail("C-scan coverage", construct, a.W.InstrPos(ifi), "scan visits "+clip(at0.String(), 60)+" .. "+clip(at1.String(), 60)+", not the whole index range")
+				}
+			}
+			if !(dirs["forward"] && dirs["backward"]) {
+				r.Fail("C-scan coverage", "stats.(Sample).Bounds/sorted-weighted", b.pos(fn), "need one forward scan (min) and one backward scan (max)")
+			}
+		})
+	}
 	// vec element formulas
 	elemStore := func(fname string, names []string, spec string, fixed func(fc *FC, env *SpecEnv)) {
 		fn := b.Fn(rB, fname)
